@@ -36,6 +36,12 @@ def jobs(tier):
             for pre in (["false_region"], ["aborted_region"], ["self_first"]):
                 js.append(dict(name="%s/n4/after-%s" % (e.name, pre[0]), entry=e.name, backend="snarkjs",
                                cfg=dict(n=4, r=2, guard=None, bound=(1 << 64), prelude=pre), tier=tier, weight=2))
+    # selection through the block API and lazy branches: the final values are the ones native control flow gives
+    from . import cat_c09
+    for e in cat_c09.build(8, tier):
+        if "c09out" not in e.tags and e.tags & {"elif", "elif2", "elif_cmp", "lazy", "lazy_cmp_branches", "matrix", "nested"}:
+            js.append(dict(name="%s/value" % e.name, entry=e.name, backend="snarkjs", catalogue="checks.cat_c09", analysis="obs",
+                           cfg=dict(n=8, r=2, guard=None, bound=None), tier=tier, weight=2))
     js.append(dict(name="summaries/is_boolean_value+parse_boolean", entry=None, backend="snarkjs", cfg=dict(n=4),
                    tier=tier, kind="summaries", weight=1))
     return js
@@ -92,6 +98,9 @@ def run_summaries(env, spec):
 def run_job(env, spec, ref_in_body=False):
     if spec.get("kind") == "summaries":
         return run_summaries(env, spec)
+    if spec.get("analysis") == "obs":
+        from .obsjob import run_obs_job
+        return run_obs_job(spec.get("pid", PID), env, spec, lookup(spec), spec.get("catalogue"))
     entry = lookup(spec)
     job = Job(spec.get("pid", PID), env, spec, entry, spec.get("catalogue", "checks.catalogue"))
     # the reference is evaluated per path afterwards (analysis mode, no forking).  Where the traced code did not fork on a
